@@ -65,8 +65,14 @@ Earned(C, E, s, p) ==
   /\ C.tmo[s] >= 0 => \A k \in KidsOf(C, s) : ~C.forever[k] =>
                          E[FinPos(E, k)].t < E[StartPos(E, s)].t + C.tmo[s]
 RaisingS(C, s) == C.crit[s] /\ ~(s = 1 /\ C.pure)
+(* success is claimed although a non-forever job was not over when the deadline passed *)
+MissedDeadline(C, E, s, p) ==
+  /\ E[p].k = "run-end" /\ E[p].v = "true" /\ C.tmo[s] >= 0 /\ StartPos(E, s) > 0 /\ ~HasStall(E)
+  /\ \E k \in KidsOf(C, s) : ~C.forever[k] /\
+        (OverPos(E, k) = 0 \/ E[OverPos(E, k)].t > E[StartPos(E, s)].t + C.tmo[s])
 SymC04(C, E) ==
   \E s \in SchedsOf(C) : \E p \in RunEnds(E, s) :
+     \/ MissedDeadline(C, E, s, p)
      \/ /\ E[p].k = "run-end" /\ E[p].v = "true"
         /\ \E k \in KidsOf(C, s) : C.crit[k] /\ \E f \in Failed(E, k) : E[f].t < E[p].t
      \/ ((E[p].k = "run-end" /\ E[p].v = "false") \/ (E[p].k = "run-exc" /\ E[p].v = "exc")) /\ Earned(C, E, s, p)
@@ -87,6 +93,7 @@ SymC04(C, E) ==
            \/ E[d].v = "critical" /\ E[d].i # 6
 SymC10(C, E) ==
   \/ \E s \in SchedsOf(C) \ {1} : \E p \in RunEnds(E, s) :
+        \/ MissedDeadline(C, E, s, p)
         \/ ((E[p].k = "run-end" /\ E[p].v = "false") \/ (E[p].k = "run-exc" /\ E[p].v = "exc")) /\ Earned(C, E, s, p)
         \/ E[p].k = "run-end" /\ E[p].v = "false" /\ C.crit[s]
         \/ E[p].k = "run-exc" /\ E[p].v = "exc" /\ ~C.crit[s]
@@ -117,6 +124,7 @@ Running(C, E, s, p) ==
 SymC07(C, E) == \E s \in SchedsOf(C) : C.win[s] > 0 /\ \E p \in Idx(E) : Running(C, E, s, p) > C.win[s]
 
 SymC08(C, E) ==
+  \/ \E s \in SchedsOf(C) : \E p \in RunEnds(E, s) : MissedDeadline(C, E, s, p)
   \/ \E s \in SchedsOf(C) : C.tmo[s] >= 0 /\ StartPos(E, s) > 0 /\
      LET dl == E[StartPos(E, s)].t + C.tmo[s] IN
        \/ \E k \in KidsOf(C, s) : \E i \in Starts(E, k) : E[i].t > dl /\ ~HasStall(E)
